@@ -542,7 +542,7 @@ func main() {
 	handle(hist{Cfg: cfg{Pour: top - 5, Max: top, PLimit: top, GLimit: top, IReset: sec, GReset: sec}, Note: "AddCoin overflow",
 		Ops: []op{{K: "pour", C: 0, T: 5, V: 0, Bal: u64p(top)}, {K: "pour", C: 0, T: 5, V: 0, Bal: u64p(top)}, {K: "pour", C: 1, T: 5, V: 3, Bal: u64p(top)},
 			{K: "pour", C: 1, T: 5, V: 3, Bal: u64p(top)}}})
-	rnd := vh.NewRand(o.Seed)
+	rnd := vh.NewRand(o.Seed).Fork() // Fork: NewRand(k) is NewRand(1) shifted by k-1 draws
 	for i := 0; i < o.N(500, 6000); i++ {
 		handle(genHist(rnd))
 	}
